@@ -137,9 +137,9 @@ ALPHA_T = "ab|*(). +$\\"
 
 def c05_chars(s: str) -> bool:
     """
+    pre: pinned(n=len(s), first=s[:1])
     pre: len(s) <= 3
     pre: all(c in ALPHA for c in s)
-    pre: pinned(n=len(s), first=s[:1])
     post: _
     """
     return _run_text("c05_chars", (s,), s, False)
@@ -169,10 +169,10 @@ def make_text(table, toks, n, gaps):
 
 def c05_tokens3(toks: Tuple[int, int, int], n: int, gaps: int) -> bool:
     """
+    pre: pinned(n=n, t0=toks[0], gaps=gaps)
     pre: 1 <= n <= 3 and 0 <= gaps < 4
     pre: all(0 <= toks[i] < NTOK3 and (i < n or toks[i] == 0) for i in range(3))
     pre: (n >= 3 or gaps < 2) and (n >= 2 or gaps == 0)
-    pre: pinned(n=n, t0=toks[0], gaps=gaps)
     post: _
     """
     raw = (toks, n, gaps)
@@ -186,9 +186,9 @@ NTOK3 = len(TOK3)
 
 def c05_tokens4(toks: Tuple[int, int, int, int], gaps: int) -> bool:
     """
+    pre: pinned(t0=toks[0], t1=toks[1], gaps=gaps)
     pre: 0 <= gaps < 8
     pre: all(0 <= toks[i] < 8 for i in range(4))
-    pre: pinned(t0=toks[0], t1=toks[1], gaps=gaps)
     post: _
     """
     raw = (toks, gaps)
@@ -204,9 +204,9 @@ TOK_W = ["a", "b", "|", "*", "(", ")"]
 
 def c05_wrapped(toks: Tuple[int, int, int], n: int, depth: int, prefix: int, suffix: int) -> bool:
     """
+    pre: pinned(n=n, depth=depth, prefix=prefix, suffix=suffix, t0=toks[0])
     pre: 1 <= n <= 3 and 1 <= depth <= 3 and 0 <= prefix < 3 and 0 <= suffix < 4
     pre: all(0 <= toks[i] < 6 and (i < n or toks[i] == 0) for i in range(3))
-    pre: pinned(n=n, depth=depth, prefix=prefix, suffix=suffix, t0=toks[0])
     post: _
     """
     raw = (toks, n, depth, prefix, suffix)
@@ -244,10 +244,10 @@ def _comb_oracle(args, obs):
 
 def c05_combinators(ta: Tuple[int, int, int], na: int, tb: Tuple[int, int, int], nb: int) -> bool:
     """
+    pre: pinned(na=na, nb=nb, a0=ta[0], b0=tb[0])
     pre: 1 <= na <= 3 and 1 <= nb <= 3
     pre: all(0 <= ta[i] < 8 and (i < na or ta[i] == 0) for i in range(3))
     pre: all(0 <= tb[i] < 8 and (i < nb or tb[i] == 0) for i in range(3))
-    pre: pinned(na=na, nb=nb, a0=ta[0], b0=tb[0])
     post: _
     """
     raw = (ta, na, tb, nb)
